@@ -564,6 +564,8 @@ def trim_random(rng, count):
     for _ in range(count):
         n = rng.randrange(0, 30)
         pos = sorted(rng.randrange(0, 500000) for _ in range(n))
+        if pos and rng.random() < 0.3:
+            pos = [p - pos[0] for p in pos]      # first label exactly at 0, length independent of the last label
         yield f"TRIM M={mapstr(rng.randrange(1, 99), (pos[-1] if pos else 0) + rng.randrange(1, 9999), rng.choice([0, 0, 3]), pos)}"
 
 
@@ -742,3 +744,21 @@ def joinrows_synthetic(rng, count):
             other = _synthetic_row(0, [(200, 700000, 1, 0, 0), (201, 705000, 2, 5000, 0)], qid=9)
             diff = rng.choice([0, 1000, 100000, 1000000])
             yield f"RESOLVEROWS {pstr(P)} diff={diff} ROWS={a}^{other}^{b}"
+
+
+# ------------------------------------------------------------------ TOPN (per-correlation top peaks)
+def topn_random(rng, count):
+    for _ in range(count):
+        n = rng.randrange(0, 12)
+        bins = sorted(rng.sample(range(0, 400), n))
+        hs = rng.sample(range(1, 1000), n)          # distinct heights: the kept SET is then unique
+        yield (f"TOPN count={rng.randrange(0, 8)} res={rng.choice([100, 1400, 7])} start={rng.choice([0, -16000, 52000])} "
+               f"B={','.join(map(str, bins))} H={','.join(map(str, hs))}")
+
+
+def topn_exhaustive(tier):
+    m = 5 if tier == "quick" else 6
+    for n in range(0, m + 1):
+        for hs in itertools.permutations(range(1, n + 1)):
+            for c in range(0, n + 2):
+                yield f"TOPN count={c} res=100 start=0 B={','.join(str(3 * i) for i in range(n))} H={','.join(map(str, hs))}"
